@@ -142,4 +142,13 @@ theorem pkg_inventory_all_guarded :
     ∀ e ∈ pkgInventory, e.2.2.2.2 = "locked" ∨ e.2.2.2.2 = "caller" ∨ e.2.2.2.2 = "init" ∨ e.2.2.2.2 = "once" := by
   decide
 
+/-- pooled package-level objects: in the reviewed `sync.Pool` inventory — compared with the one
+re-extracted from the sources on every run — no function puts an object into a pool twice on one
+path, and every Put is reached only when the preceding `Close` of the pooled object succeeded
+(`!(err!=nil)`), i.e. not on an error branch. -/
+theorem pool_inventory_put_once :
+    ∀ e ∈ poolInventory, e.2.2.2.2.2.1 ≤ 1 ∧
+      (e.2.2.1 = "put" → e.2.2.2.2.2.2.1 = "!(err!=nil)" ∨ e.2.2.2.2.2.2.1 = "!(err!=nil)&!isLZW") := by
+  decide
+
 end PdfVerif.C18concX
